@@ -51,10 +51,15 @@ UNITS = [
          [('optional_left_field', '_remove_node'), ('optional_right_field', '_remove_node'), ('optional_left_field', '_create_node'), ('optional_right_field', '_create_node')],
          props=['C03', 'C05', 'C06'], stubs=['l2_abstract.py'], typevars={'_M': 'RawModel', '_V': 'RawModel'}, builtins=['copy.deepcopy'],
          note='token store seen through its abstract interface (view, per-token store/pos): the interface contracts restate the proved L0 contracts under pos(t) = off[block.index]+index; this restatement (bridge) is not machine-checked, it is monitored at run time by the store driver'),
-    Unit('l2.base', ['models/base.py'], 'l2_base.py',
-         [('RawModel', 'detach'), ('RawModel', 'tokens')],
-         props=['C05', 'C19', 'C03', 'C04'], stubs=['l2_store_only.py'], typevars={'_T': 'RawTokenModel'},
+    Unit('l2.base', ['token_store.py', 'models/base.py'], 'l2_base.py',
+         [('RawModel', 'detach'), ('RawModel', 'tokens'), ('RawTokenModel', '__eq__'), ('RawTokenModel', '__hash__')],
+         props=['C05', 'C19', 'C03', 'C04', 'C20'], stubs=['l2_store_only.py'], typevars={'_T': 'RawTokenModel'},
          ghost={'RawModel': {'g_first': 'RawTokenModel', 'g_last': 'RawTokenModel', 'g_ts': 'TokenStore'}, 'RawTokenModel': {'g_store': 'TokenStore', 'g_pos': 'INT'}},
          note='token store seen through its abstract interface (bridge to L0 not machine-checked); first_token/last_token/token_store are virtual: contract on the base class, tied to the slots by the L4 template obligations'),
+    Unit('l3.meta', ['models/meta_item_internal.py'], 'l3_meta.py',
+         [('RepeatedMetaItemWrapper', '_get_indent'), ('RepeatedMetaItemWrapper', '__setitem__')],
+         props=['C18'], stubs=['l3_meta.py'], typevars={'_V': 'object'},
+         field_types={'RepeatedMetaItemWrapper': {'_default_indent_getter': 'THUNK_STR'}},
+         note='the filtered view (RepeatedFilteredNodeWrapper) and MetaItem are abstract (declaration-only stubs with ghost fields); the default-indent thunk is a pure ghost value'),
     TemplateUnit('l4.templates', props=['C20', 'C11', 'C05', 'C15', 'C01', 'C03', 'C14']),
 ]
